@@ -667,7 +667,9 @@ def pipeline(tier):
     lw = [json.loads(l) for l in open(lwout)]
     for t in lw:
         t["steps"] = []
-    res["linewriter_cases"] = sum(len(t["events"]) for t in lw)
+    res["linewriter_cases"] = sum(1 for t in lw for e in t["events"] if e["ev"] == "Lines")
+    res["linewriter_long_lines"] = sum(1 for t in lw for e in t["events"] if e["ev"] == "LineLens")
+    res["linewriter_two_writer_runs"] = sum(1 for t in lw for e in t["events"] if e["ev"] == "LinesPar")
     traces.extend(lw)
     herr = [t for t in traces if any(e["ev"] == "HarnessError" for e in t["events"])]
     if herr:
@@ -763,6 +765,8 @@ def check(prop, tier):
         "process_deaths_injected": res["crashes"], "crash_points_hit": res["crash_points_hit"],
         "events_evaluated_by_monitor": res["events"], "distinct_histories": res["distinct_histories"],
         "linewriter_chunkings_executed": res.get("linewriter_cases", 0),
+        "linewriter_long_line_cases_judged_by_length": res.get("linewriter_long_lines", 0),
+        "linewriter_runs_with_two_concurrent_writers": res.get("linewriter_two_writer_runs", 0),
         "histories_compared_with_spec_prediction": res["drift_checked"], "design_drift": res["drift_count"],
         "design_drift_samples": res["drift"][:3], "child_errors": res["child_errors"], "exhaustive": False,
         "watch_mode_runs_validated_against_Watch_tla": res.get("watch_traces", 0), "watch_design_drift": res.get("watch_drift_count", 0),
